@@ -2,7 +2,7 @@
 
 Static half (in-process): for every const-evaluable expression in the alphabet, whatever the real checker decides about
 `const K = e` (accepted with a value, accepted without a value, rejected with an IndexError / ValueError text) is compared
-with CPython's evaluation of the same expression. All const dependency graphs on 3 names are checked for cycle reporting
+with CPython's evaluation of the same expression. All const dependency graphs on 3 names x 4 initializer shapes (annotated / unannotated sums, bare and annotated aliases) are checked for cycle reporting
 and termination. Dynamic half (real CLI): for accepted consts the program prints K and the same expression evaluated in a
 function body; both must equal the reference.
 """
@@ -107,16 +107,17 @@ def const_value_to_py(v):
     return None
 
 
+GRAPH_SHAPES = ("annotated_sum", "unannotated_sum", "bare_alias", "annotated_alias")
+
+
 def graphs():
+    """All dependency graphs on 3 const names x initializer shape. Shapes: `const N: int = A + B + 1`, the same without
+    the annotation, and - for nodes with exactly one dependency - the bare alias `const N = A` / `const N: int = A`."""
     names = ["GA", "GB", "GC"]
     edges = [(a, b) for a in names for b in names]
+    m = 0
     for mask in range(1 << len(edges)):
         es = [edges[i] for i in range(len(edges)) if mask >> i & 1]
-        src = ""
-        for n in names:
-            deps = [b for (a, b) in es if a == n]
-            src += f"const {n}: int = " + " + ".join(deps + ["1"]) + "\n"
-        # cyclic?
         adj = {n: [b for (a, b) in es if a == n] for n in names}
 
         def reach(x, y, seen=None):
@@ -131,7 +132,19 @@ def graphs():
             return False
 
         cyc = any(reach(n, n) for n in names)
-        yield mask, es, src, cyc
+        for shape in GRAPH_SHAPES:
+            if shape.endswith("alias") and not any(len(adj[n]) == 1 for n in names):
+                continue
+            src = ""
+            for n in names:
+                deps = adj[n]
+                ann = ": int" if shape.startswith("annotated") else ""
+                if shape.endswith("alias") and len(deps) == 1:
+                    src += f"const {n}{ann} = {deps[0]}\n"
+                else:
+                    src += f"const {n}{ann} = " + " + ".join(deps + ["1"]) + "\n"
+            yield m, es, src, cyc
+            m += 1
 
 
 def run(tier):
@@ -267,7 +280,7 @@ def run(tier):
         "distinct_nontrivial": len(sig_ok),
         "rule": "const-evaluable expressions: literals, const references, unary -/not, 7 numeric operators, 6 comparisons, and/or, string +, in / not in, every string index in "
         "{-6,-5,-1,0,1,4,5,9} on 4 strings, every slice with start/end in {absent,-7,-2,0,1,3,9} and step in {absent,1,2,-1,-2,0} (quick: reduced 3-part product), depth-2 "
-        "slice/index/concat/membership combinations, tuples and frozen collections; all 512 dependency graphs on 3 consts; static oracle = CPython evaluation vs the checker's "
+        "slice/index/concat/membership combinations, tuples and frozen collections; all 512 dependency graphs on 3 consts x 4 initializer shapes (annotated sum, unannotated sum, bare alias, annotated alias); static oracle = CPython evaluation vs the checker's "
         "verdict and computed const value; dynamic oracle = printed const == same expression in a function body == reference",
         "samples": [{"sig": list(s), "expr": e} for s, e in common.pick_samples(exprs)],
         "exhaustive": True,
